@@ -2,6 +2,7 @@
 from vlib.core import Group
 from vlib.props import codeccommon as cm
 from vlib.gen import hx, unhx
+from vlib import e2egen
 
 ID = "C17"
 LEVEL = "proof"
@@ -12,11 +13,12 @@ RULE = ("rt/err probe (server renders a backend result exactly as writeError / d
         "textproto.ReadResponse + toSMTPErr): codes {421,450,451,452,500,550,552,554,599,400} x enhanced {set, unset, NoEnhancedCode, "
         "odd values} x message shapes (empty, leading/trailing space, looks-like-a-code, non-ASCII, 1-3 lines, line that starts with the "
         "code) x the call sites {envelope (451 default), data (554 default)} + plain errors; reply/tosmtperr probes for the two "
-        "halves separately. non-trivial = multi-line, or unset/absent enhanced code, or text starting with a code-like token")
+        "halves separately; e2e probe: a scripted backend refuses MAIL, RCPT or Data with each code x enhanced code x message shape and the "
+        "real client's returned error is compared with it. non-trivial = multi-line, or unset/absent enhanced code, or text starting with a code-like token")
 THEOREMS = ["C17_roundtrip (pending)"]
 KNOWN = {}
 nontrivial = lambda case, ans: any(x in case for x in ("0a", "/0.0.0/", "/-1.-1.-1/", "352e")) or case.startswith("rt\terr") and "er/" in case
-signature = lambda case, ans: "/".join(case.split("\t")[:3]) + "->" + ans.split("/")[0]
+signature = lambda case, ans: "e2e" if case.startswith("e2e") else "/".join(case.split("\t")[:3]) + "->" + ans.split("/")[0]
 mutate = lambda case, rng: []
 shrink = lambda case: []
 
@@ -44,7 +46,8 @@ def groups(tier, rng):
         for msg in MSGS + [b"5.7.1 a\n5.7.1 b", b"5.7.1 a\n5.7.2 b", b"+5.-7.1 x", b"5.7 x", b"5.7.1.2 x", b"9999999999999999999.1.1 x", b"5.7.1"]:
             halves.append("tosmtperr\t%d\t%s" % (code, hx(msg)))
     return [Group("rt/errors", rt, theorems=THEOREMS),
-            Group("reply+tosmtperr", halves, theorems=THEOREMS, monitor=False)]
+            Group("reply+tosmtperr", halves, theorems=THEOREMS, monitor=False),
+            Group("e2e/backend-errors", e2egen.c17_cases(tier, rng), theorems=THEOREMS, project=lambda c, a: "")]
 
 
 replay_groups = cm.replay_groups_factory(Group, THEOREMS)
